@@ -366,6 +366,28 @@ def gen_requests(spec):
             k += 1
             if k % n == sh:
                 yield v1, base, "struct:" + label, r
+        # fields of OTHER commands added to a request that does not document them (an
+        # updateAncestorBlock carrying "brothers", a getPubKey carrying "message" ...),
+        # well-formed as in their home command and malformed in every kind: a field a
+        # command does not know is no ground for that command to refuse
+        pool = {}
+        for name, base in b.items():
+            for fld, val in base.items():
+                if fld not in ("command", "version"):
+                    pool.setdefault(fld, [])
+                    if val not in pool[fld]:
+                        pool[fld].append(val)
+        for name, base in b.items():
+            for fld, donors in sorted(pool.items()):
+                if fld in base:
+                    continue
+                for val in donors + VALUES:
+                    k += 1
+                    if k % n != sh:
+                        continue
+                    r = copy.deepcopy(base)
+                    r[fld] = copy.deepcopy(val)
+                    yield v1, name, "foreign:%s=%s" % (fld, kind_of(val)), r
         # random multi-deviations
         nrand = (6000 if spec["tier"] == "quick" else 600000)
         names = list(b)
